@@ -96,7 +96,7 @@ use crossbeam_channel as cb;
 struct VSlot { name: &'static str, id: u16, reply_rx: cb::Receiver<Result<ChannelMessage>>, consumers: Vec<(String, Option<cb::Receiver<ConsumerMessage>>)>,
                ret_rx: Option<cb::Receiver<Return>>, conf_rx: Option<cb::Receiver<Confirm>>, mio_tx: Option<mio_extras::channel::SyncSender<IoLoopMessage>>, reply_log: Vec<String> }
 struct VWorld { inner: Inner, state: ConnectionState, slots: Vec<VSlot>, ch0_reply: cb::Receiver<Result<ChannelMessage>>,
-                blocked_rx: Option<cb::Receiver<ConnectionBlockedNotification>>, keep: Vec<Box<dyn std::any::Any>>, out_base: usize, results: Vec<String> }
+                blocked_rx: Option<cb::Receiver<ConnectionBlockedNotification>>, keep: Vec<Box<dyn std::any::Any>>, out_base: usize, pre: Vec<u8>, results: Vec<String> }
 
 fn mk_slot(id: u16) -> (ChannelSlot, cb::Receiver<Result<ChannelMessage>>, mio_extras::channel::SyncSender<IoLoopMessage>) {
     let (mio_tx, mio_rx) = mio_sync_channel(16);
@@ -107,6 +107,7 @@ fn mk_slot(id: u16) -> (ChannelSlot, cb::Receiver<Result<ChannelMessage>>, mio_e
 fn mk_world(blocked: bool) -> VWorld {
     let mut inner = Inner::new(HeartbeatTimers::default(), 16);
     inner.outbuf.clear();
+    inner.outbuf.push_heartbeat();   // data queued earlier and not yet written: must survive whatever the frames under test cause
     inner.chan_slots.set_channel_max(65535);
     let (c0, c0rx, c0tx) = mk_slot(0);
     let (sb_tx, sb_rx) = mio_sync_channel(1);
@@ -116,7 +117,7 @@ fn mk_world(blocked: bool) -> VWorld {
     let ch0 = Channel0Slot { common: c0, set_blocked_rx: sb_rx, blocked_tx: if blocked { Some(btx) } else { None }, alloc_chan_req_rx: ar_rx, alloc_chan_rep_tx: rep_tx };
     let mut keep: Vec<Box<dyn std::any::Any>> = Vec::new();
     keep.push(Box::new(c0tx)); keep.push(Box::new(sb_tx)); keep.push(Box::new(ar_tx)); keep.push(Box::new(rep_rx));
-    VWorld { inner, state: ConnectionState::Steady(ch0), slots: Vec::new(), ch0_reply: c0rx, blocked_rx: if blocked { Some(brx) } else { None }, keep, out_base: 0, results: Vec::new() }
+    VWorld { inner, state: ConnectionState::Steady(ch0), slots: Vec::new(), ch0_reply: c0rx, blocked_rx: if blocked { Some(brx) } else { None }, keep, out_base: 0, pre: Vec::new(), results: Vec::new() }
 }
 
 fn add_chan(w: &mut VWorld, name: &'static str, id: u16, tags: &[&str], ret: bool, conf: bool) {
@@ -146,7 +147,7 @@ fn take_replies(w: &mut VWorld, name: &str) {
     }
 }
 fn prep(w: &mut VWorld, f: AMQPFrame) { w.state.process(&mut w.inner, f).unwrap(); }
-fn ready(w: &mut VWorld) { w.out_base = w.inner.outbuf.len(); }
+fn ready(w: &mut VWorld) { w.out_base = w.inner.outbuf.len(); w.pre = (&w.inner.outbuf[0..]).to_vec(); }
 
 fn step(w: &mut VWorld, f: AMQPFrame) {
     let r = w.state.process(&mut w.inner, f);
@@ -203,8 +204,10 @@ fn observe(w: &mut VWorld) -> String {
     o += &format!("|state={}", match &w.state { ConnectionState::Steady(_) => "Steady", ConnectionState::ServerClosing(_) => "ServerClosing", ConnectionState::ClientException => "ClientException", ConnectionState::ClientClosed => "ClientClosed" });
     o += &format!("|sealed={}", w.inner.outbuf.is_sealed());
     let mut frames = Vec::new();
+    let kept = w.inner.outbuf.len() >= w.out_base && &(&w.inner.outbuf[0..])[..w.out_base] == &w.pre[..];
+    o += &format!("|earlier={}", if kept { "kept" } else { "lost" });
     {
-        let mut bytes: &[u8] = &w.inner.outbuf[w.out_base..];
+        let mut bytes: &[u8] = &w.inner.outbuf[(if kept { w.out_base } else { 0 })..];
         while !bytes.is_empty() {
             match amq_protocol::frame::parsing::parse_frame(bytes) {
                 Ok((rest, f)) => {
@@ -352,6 +355,7 @@ def engine_obs(prog, s, w, results, nm, base_items=1):
     o = 'res=[' + ','.join(('Ok' if r == 'Ok' else f"Err({r})") for r in results) + ']'
     o += f"|state={state_name(prog, w)}"
     o += f"|sealed={'true' if nm.b(sealed_flag(prog, w)) else 'false'}"
+    o += f"|earlier={'kept' if nm.i(w.outbuf.abs) == 0 else 'lost'}"
     fr = []
     for it in w.outbuf.items[base_items:]:
         if it['kind'] == 'method':
